@@ -199,6 +199,7 @@ spif_bool_t
 spif_ustr_init_from_buff(spif_ustr_t self, spif_charptr_t buff, spif_ustridx_t size)
 {
     ASSERT_RVAL(!SPIF_USTR_ISNULL(self), FALSE);
+    REQUIRE_RVAL(size >= 0, FALSE);
     /* ***NOT NEEDED*** spif_obj_init(SPIF_OBJ(self)); */
     spif_obj_set_class(SPIF_OBJ(self), SPIF_CLASS_VAR(ustr));
     self->size = size;
